@@ -555,7 +555,10 @@ class TaskScenario(ScenarioData):
                             elif gaplength:
                                 # gaplength is working time - need to find next working slot after gap
                                 gap_hours = self._parse_duration(gaplength)
-                                gap_slots = int(gap_hours)  # Each slot is 1 hour
+                                # Working slots that cover the gap (a slot is not always an hour:
+                                # 'gaplength 2h' at a 30 minute resolution is four slots)
+                                slot_seconds = self.project.attributes.get("scheduleGranularity", 3600) or 3600
+                                gap_slots = -int(-(gap_hours * 3600.0) // slot_seconds)
                                 dep_time_idx = self.project.dateToIdx(dep_time)
                                 # Skip gap_slots of working time
                                 working_slots = 0
